@@ -20,7 +20,9 @@ SNext ==
        \/ Resched /\ H(Tok("resched", "env"))
        \/ \E c \in Callers : \/ RLookup(c) /\ H(Tok("call", c))
                              \/ (RCheck(c) \/ RSend(c)) /\ H(Tok("step", c))
-       \/ \E k \in Cancellers : \/ KLookup(k) /\ H(Tok("call", k))
+       \* a prefix canceller lists and looks up without a gate in between: the call token stands for both
+       \/ \E k \in Cancellers : \/ KList(k) /\ H(Tok("call", k))
+                                \/ KLookup(k) /\ (IF k \in PrefixCancellers THEN UNCHANGED hist ELSE H(Tok("call", k)))
                                 \/ KSignal(k) /\ H(Tok("step", k))
        \/ GNext /\ H(Tok("step", "g"))
 
